@@ -109,8 +109,16 @@ func VerifC15Foreach() {
 	k := rt.Choice("count", rt.Param("k")+1)
 	list := verifList(dt, k, rt.Param("n"))
 	verifEmit.dt, verifEmit.list = dt, list
+	hasEmpty := false
+	for _, e := range list {
+		hasEmpty = hasEmpty || len(e) == 0
+	}
+	rt.KnownFinding("C15-foreach-skips-empty-elements", hasEmpty)
+	if rt.Param("setaside") == 1 { // diagnostic runs only; always 0 in spec.json
+		rt.Assume(!hasEmpty)
+	}
 
-	stdout, _, exitNum, err := mx.Run(`verifc15emit -> foreach v { (<$v>) -> out }`)
+	stdout, _, exitNum, err := mx.Run(`verifc15emit -> foreach v { out "<$(v)>" }`)
 	rt.Assert(err == nil, "block does not compile")
 	rt.Reach("ran")
 	want := ""
